@@ -1,267 +1,495 @@
 """C41 - HAR export followed by HAR import preserves the exchange.
 
-Decided (addons/savehar.py::SaveHar.flow_entry vs io/har.py::request_to_flow):
-  R41.1 version vocabulary, identity on mitmproxy's own literals: SaveHar emits ``message.http_version`` verbatim; the
-        canonical literals are the ones ``Message.is_http10/11/2/3`` test for (read from http.py on every run).  Each of
-        them - except the HTTP/2 literal, see R41.3 - must be mapped TO ITSELF by request_to_flow's version ``match``
-        for the request and for the response.  Foreign spellings (Chrome's ``http/2.0``, ``h3`` ...) are outside the
-        property and pinned by the repo's expected-output files; the rule does not look at them.
+Every rule is decided by INTERPRETING the exporter and the importer from their AST with ``mitmlint/pyint.py`` (nothing is
+imported or run): ``SaveHar.flow_entry`` on abstract HTTP flows, ``json`` round trip of the entry, ``har.request_to_flow`` on
+the result - helpers (``format_multidict``, ``_body_fields``, ``fix_headers``, a version table + normalising function ...),
+``match`` / ``if`` chains / dict dispatch, temporaries, keyword arguments, logging, assertions are followed by the interpreter.
+The abstract flows: records bound to ``http.Request`` / ``http.Response`` (so that ``http_version`` and the ``is_http*``
+predicates are the repository's own properties, interpreted), with rule-supplied values for the rest of the message API;
+on the import side ``http.Request.make`` / ``http.Response`` / ``http.HTTPFlow`` / ``connection.*`` / ``http.encoding`` are
+stand-ins of the rule that record their arguments (resolved by import target, not by local name).
+
+  R41.1 version vocabulary, identity on mitmproxy's own literals: the canonical literals are the ones for which
+        ``Message.is_http10/11/2/3`` hold (candidates = the constants of those properties, decided by interpreting them).  A
+        flow whose request / response carries such a literal - other than the HTTP/2 one, see R41.3 - must come back from
+        export + import with the same literal (or at least satisfying the same predicate).  Foreign spellings (Chrome's
+        ``http/2.0``, ``h3`` ...) are outside the property and pinned by the repo's expected-output files.
   R41.3 the same obligation for the HTTP/2 literal ``HTTP/2.0`` (separate id: on today's tree it falls into the default
         case and is imported as HTTP/1.1 - defect F-C41, which cannot be repaired without editing an expected-output
         file of the existing test-suite; listed as known finding).
-  R41.2 request body and required keys: the exporter attaches ``postData`` (with the request text under ``text``) at
-        least for POST, PUT and PATCH; the importer takes ``postData.text`` whenever present and passes it to
-        ``Request.make`` as the body; every key the importer requires unconditionally (subscript access) is written
-        by the exporter in every branch.
-  R41.4 "in the same order": ``SaveHar.make_har`` and ``FlowReader.stream`` are INTERPRETED from their AST (pyint; nothing
-        is imported or run) on flow lists whose generated entries carry, under every key ``flow_entry`` writes, values that
-        increase / decrease / zig-zag with the position (``flow_entry`` and ``request_to_flow`` are replaced by tagging
-        stubs; they are the subject of R41.1-R41.3).  ``make_har(flows)["log"]["entries"]`` must be exactly the entries of
-        the HTTP flows, in the order of ``flows`` (non-HTTP flows skipped), and ``stream()`` must yield one flow per
-        element of ``log.entries`` in file order; ``export_har`` and ``done`` must serialise what ``make_har`` returns
-        for the flows they were given.  Any re-ordering that depends on the entries' content (sorting by start time,
-        duration, URL ...), a reversal, or a drop / duplication makes the i-th imported flow differ from the i-th exported.
-NOT decided: header/body equality, charset handling of the bodies, timings; the order in which ``hardump`` collects flows.
+  R41.2 request body, request line, status and required keys: for POST, PUT and PATCH requests the body the importer hands
+        to ``Request.make`` is the request text the exporter saw; method, URL and status code survive; importing an exported
+        entry (text / binary / empty body, with and without response, error, websocket messages) never fails with a
+        KeyError / IndexError / TypeError (a key the importer requires is not written by the exporter in some branch).
+  R41.4 "in the same order": ``SaveHar.make_har`` and ``FlowReader.stream`` are interpreted on flow lists whose generated
+        entries carry, under every key ``flow_entry`` writes, values that increase / decrease / zig-zag with the position
+        (``flow_entry`` and ``request_to_flow`` are replaced by tagging stubs; they are the subject of R41.1-R41.3).
+        ``make_har(flows)["log"]["entries"]`` must be exactly the entries of the HTTP flows, in the order of ``flows``
+        (non-HTTP flows skipped), and ``stream()`` must yield one flow per element of ``log.entries`` in file order;
+        ``export_har`` and ``done`` must serialise what ``make_har`` returns for the flows they were given.
+NOT decided: header equality, charset handling of the response bodies, timings; the order in which ``hardump`` collects flows.
 """
 
 from __future__ import annotations
 
 import ast
 
+from ..core import AnalysisError
 from ..model import attr_chain
 from ..selftest import Mutant
 from ._helpers_E import expect
 from ._helpers_E import params
-from ._helpers_E import paths
 from ._helpers_E import prop_parts
-from ._helpers_E import show
 
 PROP = "C41"
 REG = {
-    "strength": "narrow",
-    "technique": "vocabulary agreement: literals tested by Message.is_http* x evaluation of the importer's match statements; key-path agreement between exporter dict literals and importer subscripts; "
-    "path rule for postData; interpretation (pyint) of make_har / FlowReader.stream over position-tagged entries for the order clause",
-    "claim": "every canonical HTTP version literal of mitmproxy that SaveHar exports verbatim is imported as itself (HTTP/2.0 reported "
-    "separately as R41.3); postData is exported for POST/PUT/PATCH and imported as the request body; all keys the importer requires "
-    "are exported; make_har lists the entries of the HTTP flows in the order given and FlowReader.stream yields them in file order.",
-    "note": "Foreign version spellings are out of scope. Header and body equality are not decided.",
+    "strength": "partial",
+    "technique": "abstract interpretation (pyint) of SaveHar.flow_entry -> json -> har.request_to_flow on abstract HTTP flows whose version literals are the ones "
+    "Message.is_http* accept; recording stand-ins for Request.make / Response; interpretation of make_har / FlowReader.stream over position-tagged entries for the order clause",
+    "claim": "every canonical HTTP version literal of mitmproxy comes back from export+import as itself (HTTP/2.0 reported separately as R41.3); "
+    "the request text of POST/PUT/PATCH requests is imported as the request body, method / URL / status survive and no exported variant fails to import on a missing key; "
+    "make_har lists the entries of the HTTP flows in the order given and FlowReader.stream yields them in file order.",
+    "note": "Foreign version spellings are out of scope. Header and response-body equality are not decided.",
 }
 
 HAR = "mitmproxy/io/har.py"
 SH = "mitmproxy/addons/savehar.py"
 HTTP = "mitmproxy/http.py"
 H2_RULE = "R41.3"
+PREDICATES = ("is_http10", "is_http11", "is_http2", "is_http3")
+STANDARD = (b"HTTP/1.0", b"HTTP/1.1", b"HTTP/2.0", b"HTTP/2", b"HTTP/3", b"HTTP/3.0", b"HTTP/0.9")
 
 
-def _vocabulary(ctx):
+# ---------------------------------------------------------------------------------------------------
+# the rule's own stand-ins (native objects: pyint treats them like values of a trusted library)
+
+
+def _abs(fn):
+    fn._pyint_accepts_abstract = True
+    return fn
+
+
+class _Stub:
+    """namespace stand-in; an unknown member is a refusal (exit 2), never a guess"""
+
+    _pyint_accepts_abstract = True
+
+    def __init__(self, what, **members):
+        self.__dict__["_what"] = what
+        self.__dict__.update(members)
+
+    def __getattr__(self, name):
+        if name.startswith("__"):
+            raise AttributeError(name)
+        raise AnalysisError(f"C41: the stand-in for {self._what} has no member '{name}' (extend the rule's domain)")
+
+
+class _MD:
+    """stand-in for Headers / MultiDictView / cookie attributes: an ordered multi-dict with case-insensitive lookup"""
+
+    _pyint_accepts_abstract = True
+
+    def __init__(self, fields=(), what="multidict"):
+        self.fields = [(k, v) for k, v in fields]
+        self.what = what
+
+    @staticmethod
+    def _k(k):
+        return k.lower() if isinstance(k, str) else k
+
+    def items(self, multi=False):
+        if multi:
+            return list(self.fields)
+        out = {}
+        for k, v in self.fields:
+            out.setdefault(k, v)
+        return list(out.items())
+
+    def keys(self, multi=False):
+        return [k for k, _ in self.items(multi)]
+
+    def values(self, multi=False):
+        return [v for _, v in self.items(multi)]
+
+    def get(self, key, default=None):
+        for k, v in self.fields:
+            if self._k(k) == self._k(key):
+                return v
+        return default
+
+    def get_all(self, key):
+        return [v for k, v in self.fields if self._k(k) == self._k(key)]
+
+    def __getitem__(self, key):
+        for k, v in self.fields:
+            if self._k(k) == self._k(key):
+                return v
+        raise KeyError(key)
+
+    def __contains__(self, key):
+        return any(self._k(k) == self._k(key) for k, _ in self.fields)
+
+    def __iter__(self):
+        return iter(self.keys())
+
+    def __len__(self):
+        return len(self.keys())
+
+    def __bool__(self):
+        return bool(self.fields)
+
+    def __str__(self):
+        return "".join(f"{k}: {v}\r\n" for k, v in self.fields)
+
+    def __bytes__(self):
+        return str(self).encode()
+
+    def __getattr__(self, name):
+        if name.startswith("__"):
+            raise AttributeError(name)
+        raise AnalysisError(f"C41: the stand-in for a {self.what} has no member '{name}' (extend the rule's domain)")
+
+
+def _noop(*a, **k):
+    return None
+
+
+_noop._pyint_accepts_abstract = True
+
+
+def _codec_encode(content, enc="utf-8", errors="strict"):
+    """stand-in for mitmproxy.net.encoding.encode: text -> bytes with a python codec, bytes pass (content codings are not the rule's subject)"""
+    import codecs
+
+    if content is None:
+        return None
+    if isinstance(content, str):
+        try:
+            codecs.lookup(enc)
+        except (LookupError, TypeError):
+            raise ValueError(f"unknown encoding {enc!r}")
+        return content.encode(enc, errors)
+    return content
+
+
+_codec_encode._pyint_accepts_abstract = True
+
+
+def _make_interp(ctx, made):
+    """pyint with the import-side stand-ins; ``made`` collects what Request.make / Response received"""
+    import base64
+    import datetime
+    import json
+    import re
+    import time
+    import urllib.parse
+    import zlib
+
+    from ..pyint import Interp
+    from ..pyint import NullLog
+    from ..pyint import Rec
+
+    def message(kind, version, **attrs):
+        data = Rec(kind + "Data", http_version=version, timestamp_start=None, timestamp_end=None)
+        return Rec(kind, _bases=("Message",), _impl=(HTTP, kind), data=data, decode=_noop, encode=_noop, **attrs)
+
+    @_abs
+    def request_make(method, url, content="", headers=(), **kw):
+        r = message("Request", b"HTTP/1.1", headers=headers if isinstance(headers, _MD) else _MD(list(headers.items()) if isinstance(headers, dict) else headers, "Headers"))
+        made.append(("request", r, {"method": method, "url": url, "content": content, "headers": headers}))
+        return r
+
+    class _ResponseCls(_Stub):
+        def __call__(self, http_version, status_code, reason=b"", headers=(), content=b"", trailers=None, timestamp_start=0.0, timestamp_end=None):
+            r = message("Response", http_version if isinstance(http_version, bytes) else str(http_version).encode(), headers=headers)
+            r.data.__dict__.update(timestamp_start=timestamp_start, timestamp_end=timestamp_end)
+            made.append(("response", r, {"status_code": status_code, "content": content, "headers": headers}))
+            return r
+
+        def make(self, status_code=200, content=b"", headers=()):
+            return self(b"HTTP/1.1", status_code, b"", headers if isinstance(headers, _MD) else _MD(headers, "Headers"), content, None, 0.0, None)
+
+    @_abs
+    def headers_cls(fields=(), **kw):
+        return _MD([(k.decode("utf-8", "surrogateescape") if isinstance(k, bytes) else k, v.decode("utf-8", "surrogateescape") if isinstance(v, bytes) else v) for k, v in fields], "Headers")
+
+    @_abs
+    def httpflow(client_conn, server_conn, live=False):
+        return Rec("HTTPFlow", _bases=("Flow",), client_conn=client_conn, server_conn=server_conn, live=live, request=None, response=None, error=None,
+                   websocket=None, metadata={}, comment="", marked="", is_replay=None, intercepted=False)
+
+    @_abs
+    def conn(kind):
+        @_abs
+        def mk(*a, **k):
+            base = {"timestamp_start": None, "timestamp_end": None, "address": None, "peername": None, "sockname": None, "timestamp_tcp_setup": None, "timestamp_tls_setup": None}
+            base.update(k)
+            return Rec(kind, _bases=("Connection",), **base)
+
+        return mk
+
+    @_abs
+    def infer(content_type="", content=b""):
+        m = re.search(r"charset=([\w-]+)", content_type or "")
+        return m.group(1) if m else "utf-8"
+
+    encoding = _Stub("mitmproxy.net.encoding", encode=_codec_encode, decode=_codec_encode)
+    http_stub = _Stub("mitmproxy.http", Headers=headers_cls, Request=_Stub("http.Request", make=request_make), Response=_ResponseCls("http.Response"), HTTPFlow=httpflow,
+                      encoding=encoding, status_codes=_Stub("http.status_codes", RESPONSES={200: "OK", 404: "Not Found"}))
+    conn_stub = _Stub("mitmproxy.connection", Client=conn("Client"), Server=conn("Server"))
+    hdr_stub = _Stub("mitmproxy.net.http.headers", infer_content_encoding=infer)
+    routes = {"mitmproxy.http": http_stub, "mitmproxy.connection": conn_stub, "mitmproxy.net.http.headers": hdr_stub, "mitmproxy.net.encoding": encoding}
+
+    class HarInterp(Interp):
+        """pyint + inside io/har.py the imports of mitmproxy.http / connection / encoding resolve to the rule's recording stand-ins (by import target, whatever the local name)"""
+
+        def name(self, ident, env, mod, depth, node):
+            if mod.rel == HAR and ident not in env and ident in mod.imports and mod.get(ident) is None:
+                clo, shadowed = env.get("$closure"), False
+                while clo is not None and not shadowed:
+                    shadowed = ident in clo
+                    clo = clo.get("$closure")
+                if not shadowed:
+                    target = mod.imports[ident]
+                    for root, stub in routes.items():
+                        if target == root:
+                            return stub
+                        if target.startswith(root + "."):
+                            obj = stub
+                            for part in target[len(root) + 1:].split("."):
+                                obj = getattr(obj, part)
+                            return obj
+            return super().name(ident, env, mod, depth, node)
+
+    trusted = {"json": json, "datetime": datetime, "base64": base64, "time": time, "re": re, "zlib": zlib, "urllib": urllib, "urllib.parse": urllib.parse, "logging": NullLog()}
+    return HarInterp(ctx.model, trusted_modules=trusted, max_steps=2_000_000), message
+
+
+# ---------------------------------------------------------------------------------------------------
+# vocabulary
+
+
+def _vocabulary(ctx, it, message):
+    """{predicate name: [canonical literal (bytes)]}: the constants of Message.is_http* for which the interpreted predicate holds"""
     cls = ctx.model.cls(HTTP, "Message")
+    mod = ctx.model.module(HTTP)
     out = {}
-    for name in ("is_http10", "is_http11", "is_http2", "is_http3"):
+    for name in PREDICATES:
         g, _ = prop_parts(cls, name)
         ctx.require(g is not None, f"Message.{name} property vanished")
-        cmps = [n for n in ast.walk(g) if isinstance(n, ast.Compare) and len(n.ops) == 1 and isinstance(n.ops[0], ast.Eq)]
-        lits = [c for n in cmps for c in (n.left, n.comparators[0]) if isinstance(c, ast.Constant) and isinstance(c.value, (bytes, str))]
-        ctx.require(len(cmps) == 1 and len(lits) == 1 and "http_version" in ast.unparse(cmps[0]), f"Message.{name} is no longer 'http_version == <literal>'")
-        v = lits[0].value
-        out[name] = v.decode() if isinstance(v, bytes) else v
+        cands = list(STANDARD)
+        for n in ast.walk(g):
+            if isinstance(n, ast.Constant) and isinstance(n.value, (bytes, str)) and n.value:
+                cands.append(n.value if isinstance(n.value, bytes) else n.value.encode())
+            elif isinstance(n, ast.Name) and mod.assigns(n.id):
+                for v in mod.assigns(n.id):
+                    for c in ast.walk(v):
+                        if isinstance(c, ast.Constant) and isinstance(c.value, (bytes, str)) and c.value:
+                            cands.append(c.value if isinstance(c.value, bytes) else c.value.encode())
+        hold = []
+        for lit in dict.fromkeys(cands):
+            msg = message("Request", lit)
+            if it.truthy(it.getattr(msg, name, g, 0)):
+                hold.append(lit)
+        ctx.require(hold, f"Message.{name} holds for none of the version literals {sorted(set(cands))}: vocabulary not modelled")
+        out[name] = hold
     return out
 
 
-def _exporter(ctx, fe):
-    """dict literals of flow_entry: entry, request, response variants, postData."""
-    dicts = {"entry": [], "response": [], "postData": []}
-    for n in ast.walk(fe):
-        if isinstance(n, (ast.Assign, ast.AnnAssign)) and isinstance(n.value, ast.Dict):
-            tg = n.targets[0] if isinstance(n, ast.Assign) else n.target
-            if isinstance(tg, ast.Name) and tg.id in ("entry", "response"):
-                dicts[tg.id].append(n.value)
-            elif ast.unparse(tg).replace('"', "'") == "entry['request']['postData']":
-                dicts["postData"].append(n)
-    ctx.require(len(dicts["entry"]) == 1, "SaveHar.flow_entry: 'entry' dict literal not found")
-    ctx.require(len(dicts["response"]) >= 1, "SaveHar.flow_entry: 'response' dict literal(s) not found")
-    return dicts
+# ---------------------------------------------------------------------------------------------------
+# abstract HTTP flows for the exporter
+
+BODY_TEXT = "a=1&b=%20x&note=café"
+BODY_FORM = [("a", "1"), ("b", " x"), ("note", "café")]
 
 
-def _keys(d: ast.Dict):
-    return {k.value: v for k, v in zip(d.keys, d.values) if isinstance(k, ast.Constant)}
+def _export_flow(message, req_version=b"HTTP/1.1", resp_version=b"HTTP/1.1", method="GET", url="https://example.com/path?q=1", response="text", error=False, websocket=False, tag="flow"):
+    from ..pyint import Rec
+
+    body = BODY_TEXT.encode()
+    req_headers = _MD([("Host", "example.com"), ("Content-Type", "application/x-www-form-urlencoded; charset=utf-8"), ("X-Dup", "1"), ("x-dup", "2"), ("Cookie", "c=d")], "Headers")
+    has_body = method in ("POST", "PUT", "PATCH", "DELETE")
+
+    @_abs
+    def req_text(strict=True):
+        return BODY_TEXT if has_body else ""
+
+    @_abs
+    def req_content(strict=True):
+        return body if has_body else b""
+
+    request = message(
+        "Request", req_version, method=method, url=url, pretty_url=url, host="example.com", pretty_host="example.com", port=443 if url.startswith("https") else 80,
+        scheme=url.split(":")[0], path="/path?q=1", authority="", headers=req_headers, trailers=None, cookies=_MD([("c", "d")], "cookies view"), query=_MD([("q", "1")], "query view"),
+        urlencoded_form=_MD(BODY_FORM if has_body else [], "form view"), multipart_form=_MD([], "form view"), content=body if has_body else b"", raw_content=body if has_body else b"",
+        text=BODY_TEXT if has_body else "", get_text=req_text, get_content=req_content, timestamp_start=1700000000.0, timestamp_end=1700000000.25, stream=False,
+    )
+    request.data.__dict__.update(timestamp_start=1700000000.0, timestamp_end=1700000000.25)
+    resp = None
+    if response is not None:
+        if response == "binary":
+            content, text = bytes(range(0, 40)) + b"\xff\xfe\x00", None
+            ctype = "application/octet-stream"
+        elif response == "empty":
+            content, text, ctype = b"", "", "text/plain"
+        else:
+            text = "hello wörld"
+            content, ctype = text.encode(), "text/plain; charset=utf-8"
+
+        @_abs
+        def resp_text(strict=True):
+            return text
+
+        @_abs
+        def resp_content(strict=True):
+            return content
+
+        attrs_ = _MD([("path", "/"), ("secure", None), ("sameSite", "Lax")], "cookie attributes")
+        resp = message(
+            "Response", resp_version, status_code=404 if response == "empty" else 200, reason="OK", headers=_MD([("Content-Type", ctype), ("Location", ""), ("Set-Cookie", "s=t; Path=/")], "Headers"),
+            trailers=None, cookies=_MD([("s", ("t", attrs_))], "cookies view"), content=content, raw_content=content, text=text, get_text=resp_text, get_content=resp_content,
+            timestamp_start=1700000000.5, timestamp_end=1700000000.75, stream=False,
+        )
+        resp.data.__dict__.update(timestamp_start=1700000000.5, timestamp_end=1700000000.75)
+    server = Rec("Server", _bases=("Connection",), timestamp_start=1699999999.0, timestamp_tcp_setup=1699999999.1, timestamp_tls_setup=1699999999.2, timestamp_end=None,
+                 peername=("10.1.2.3", 443), address=("example.com", 443), sockname=("10.0.0.1", 50000), ip_address=("10.1.2.3", 443), tls_established=True, sni="example.com", alpn=None)
+    client = Rec("Client", _bases=("Connection",), timestamp_start=1699999998.0, timestamp_end=None, peername=("127.0.0.1", 40000), sockname=("127.0.0.1", 8080), tls_established=True)
+    ws = None
+    if websocket:
+        def wsmsg(is_text, from_client, n):
+            return Rec("WebSocketMessage", is_text=is_text, text=f"msg{n}" if is_text else None, content=f"msg{n}".encode(), from_client=from_client, timestamp=1700000001.0 + n,
+                       type=Rec("Opcode", value=1 if is_text else 2, name="TEXT" if is_text else "BINARY"), dropped=False, injected=False)
+
+        ws = Rec("WebSocketData", messages=[wsmsg(True, True, 0), wsmsg(False, False, 1)], closed_by_client=None, close_code=None, close_reason=None, timestamp_end=None)
+    err = Rec("Error", msg="connection lost", timestamp=1700000002.0) if error else None
+    return Rec("HTTPFlow", _bases=("Flow",), _name=tag, request=request, response=resp, error=err, websocket=ws, server_conn=server, client_conn=client,
+               id=f"id-{tag}", live=False, metadata={}, comment="", marked="", is_replay=None, intercepted=False, type="http", timestamp_created=1699999990.0)
+
+
+def _roundtrip(ctx, fe, rtf, flow_kwargs):
+    """interpret flow_entry(flow) -> json -> request_to_flow(entry); returns (entry, imported flow | ('raise', name, msg), made, interpreter)"""
+    import json
+
+    from ..pyint import Raised
+    from ..pyint import Rec
+
+    made = []
+    it, message = _make_interp(ctx, made)
+    flow = _export_flow(message, **flow_kwargs)
+    me = Rec("SaveHar", _impl=(SH, "SaveHar"), flows=[], filt=None)
+    extra = [set()] if len(params(fe)) >= 2 else []
+    try:
+        entry = it.method(me, "flow_entry", flow, *extra)
+    except Raised as r:
+        raise AnalysisError(f"SaveHar.flow_entry: the interpretation on the abstract flow {flow_kwargs} ends with {r.name} ({r.msg}): not modelled")
+    ctx.require(isinstance(entry, dict), f"SaveHar.flow_entry returns {type(entry).__name__}, not a dict: not modelled")
+    try:
+        entry_json = json.loads(json.dumps(entry))
+    except (TypeError, ValueError) as e:
+        raise AnalysisError(f"SaveHar.flow_entry: the entry of the abstract flow {flow_kwargs} is not JSON-serialisable ({e}): not modelled")
+    try:
+        got = it.call(HAR, rtf.name, entry_json)
+    except Raised as r:
+        got = ("raise", r.name, r.msg)
+    return entry_json, got, made, it, flow
 
 
 def _r41_123(ctx):
-    vocab = _vocabulary(ctx)
-    ctx.note(f"canonical version literals: {vocab}")
+    from ..pyint import Rec
+
     fe = ctx.func(SH, "SaveHar.flow_entry")
     rtf = ctx.func(HAR, "request_to_flow")
-    fp = params(fe)
-    ctx.require(len(fp) >= 1, "SaveHar.flow_entry(flow, ...) signature changed")
-    flow = fp[0]
-    ex = _exporter(ctx, fe)
-    entry = _keys(ex["entry"][0])
+    ctx.require(len(params(fe)) >= 1, "SaveHar.flow_entry(flow, ...) signature changed")
+    ctx.require(len(params(rtf, drop_self=False)) >= 1, "request_to_flow(request_json) signature changed")
+    it0, message0 = _make_interp(ctx, [])
+    vocab = _vocabulary(ctx, it0, message0)
+    ctx.note(f"canonical version literals: { {k: [x.decode() for x in v] for k, v in vocab.items()} }")
+    lits = [(p, lit) for p in PREDICATES for lit in vocab[p]]
 
-    # ---- exporter emits http_version verbatim
-    emitted = {"request": [], "response": []}
-    req = entry.get("request")
-    ctx.require(isinstance(req, ast.Dict), "SaveHar.flow_entry: entry['request'] is not a dict literal")
-    if "httpVersion" in _keys(req):
-        emitted["request"].append(_keys(req)["httpVersion"])
-    for d in ex["response"]:
-        if "httpVersion" in _keys(d):
-            emitted["response"].append(_keys(d)["httpVersion"])
-    for side, vals in emitted.items():
-        live = [v for v in vals if not (isinstance(v, ast.Constant) and v.value == "")]
-        ctx.require(all(attr_chain(v) == f"{flow}.{side}.http_version" for v in live),
-                    f"SaveHar.flow_entry: {side} httpVersion is not {flow}.{side}.http_version verbatim ({[ast.unparse(v) for v in live]}): exported vocabulary not modelled")
+    def imported(got, kw, what):
+        if isinstance(got, tuple) and got and got[0] == "raise":
+            return None
+        ctx.require(isinstance(got, Rec), f"request_to_flow returns {type(got).__name__} for {what}: not modelled")
+        return got
 
-    # ---- importer: evaluate the version match statements
-    rj = params(rtf, drop_self=False)
-    ctx.require(len(rj) == 1, "request_to_flow(request_json) signature changed")
-    rj = rj[0]
-    origins = {}
-    for n in ast.walk(rtf):
-        if isinstance(n, ast.Assign) and isinstance(n.targets[0], ast.Name):
-            txt = ast.unparse(n.value).replace('"', "'")
-            for side in ("request", "response"):
-                if txt == f"{rj}['{side}']['httpVersion']":
-                    origins[n.targets[0].id] = side
-    matches = {}
-    for n in ast.walk(rtf):
-        if isinstance(n, ast.Match) and isinstance(n.subject, ast.Name) and n.subject.id in origins:
-            side = origins[n.subject.id]
-            ctx.require(side not in matches, f"request_to_flow: two version matches for the {side}")
-            matches[side] = n
-
-    def evaluate(mt: ast.Match, side: str, v: str):
-        def pat(p):
-            if isinstance(p, ast.MatchValue) and isinstance(p.value, ast.Constant):
-                return p.value.value == v
-            if isinstance(p, ast.MatchOr):
-                return any(pat(q) for q in p.patterns)
-            if isinstance(p, ast.MatchAs) and p.pattern is None:
-                return True
-            ctx.require(False, f"request_to_flow: version match has an unmodelled pattern: {ast.unparse(p)}")
-
-        for case in mt.cases:
-            ctx.require(case.guard is None, "request_to_flow: guarded case in the version match is not modelled")
-            if pat(case.pattern):
-                asg = [s for s in case.body if isinstance(s, ast.Assign) and attr_chain(s.targets[0]).endswith(f".{side}.http_version")]
-                ctx.require(len(asg) == 1 and len(case.body) == 1, f"request_to_flow: case body is not a single assignment of {side}.http_version: {ast.unparse(case)[:80]}")
-                val = asg[0].value
-                if isinstance(val, ast.Constant):
-                    return val.value.decode() if isinstance(val.value, bytes) else val.value
-                if isinstance(val, ast.Name) and val.id == mt.subject.id:
-                    return v
-                ctx.require(False, f"request_to_flow: assigned version is neither a literal nor the subject: {ast.unparse(val)}")
-        ctx.require(False, f"request_to_flow: the {side} version match has no default case; the resulting version for {v!r} is not modelled")
-
+    # ---- R41.1 / R41.3: each canonical literal on the request and (a different one) on the response
+    results = {}  # (side, pred, lit) -> imported version text | 'raise ...'
+    for i, (pred, lit) in enumerate(lits):
+        other_pred, other = lits[(i + 1) % len(lits)]
+        kw = dict(req_version=lit, resp_version=other, method="POST" if i % 2 else "GET", tag=f"v{i}")
+        entry, got, made, it, flow = _roundtrip(ctx, fe, rtf, kw)
+        ctx.paths += 1
+        if i == 0:
+            ctx.sample({"exported entry keys": sorted(entry), "request keys": sorted(entry.get("request", {})), "response keys": sorted(entry.get("response", {}))})
+        new = imported(got, kw, f"request version {lit!r}")
+        for side, p_, l_ in (("request", pred, lit), ("response", other_pred, other)):
+            if new is None:
+                results[(side, p_, l_)] = (f"<{got[1]}>", False)
+                continue
+            msg = new.__dict__.get(side)
+            ctx.require(isinstance(msg, Rec), f"request_to_flow: the imported flow has no {side} record (import shape not modelled)")
+            v = it.getattr(msg, "http_version", rtf, 0)
+            v = v.decode("utf-8", "surrogateescape") if isinstance(v, bytes) else v
+            same_class = bool(it.truthy(it.getattr(msg, p_, rtf, 0)))
+            results[(side, p_, l_)] = (v, same_class)
     for side in ("request", "response"):
-        if not emitted[side]:
-            continue
-        ctx.require(side in matches, f"request_to_flow: no 'match' on the {side} httpVersion (mapping shape not modelled)")
-        for prop, v in sorted(vocab.items()):
-            got = evaluate(matches[side], side, v)
-            rule = H2_RULE if prop == "is_http2" else "R41.1"
+        for pred, lit in sorted(lits):
+            v = lit.decode()
+            got, same_class = results[(side, pred, lit)]
+            rule = H2_RULE if pred == "is_http2" else "R41.1"
             ctx.cells += 1
-            ctx.check(got == v, rule, (HAR, "request_to_flow", matches[side]), f"{side} httpVersion '{v}' is imported as '{got}'",
-                      f"SaveHar exports {flow}.{side}.http_version == '{v}' verbatim, the import turns it into '{got}': the HTTP version does not survive export+import",
+            ctx.check(got == v or same_class, rule, (HAR, "request_to_flow", rtf), f"{side} httpVersion '{v}' is imported as '{got}'",
+                      f"SaveHar exports a {side} whose http_version is '{v}' (Message.{pred}), the import turns it into '{got}': the HTTP version does not survive export+import",
                       desc=f"{side}: '{v}' -> '{got}'")
 
-    # ---- R41.2 exporter attaches postData for POST/PUT/PATCH with the request text
-    ctx.require(len(ex["postData"]) == 1, f"SaveHar.flow_entry: {len(ex['postData'])} postData assignments (expected one)")
-    pd = ex["postData"][0]
-    guard = pd._parent
-    methods = None
-    if guard is fe:
-        methods = "all"
-    elif isinstance(guard, ast.If) and pd in guard.body:
-        t = guard.test
-        if isinstance(t, ast.Compare) and len(t.ops) == 1 and isinstance(t.ops[0], ast.In) and attr_chain(t.left) == f"{flow}.request.method" and isinstance(t.comparators[0], (ast.List, ast.Tuple, ast.Set)):
-            methods = set(ast.literal_eval(t.comparators[0]))
-    ctx.require(methods is not None, f"SaveHar.flow_entry: postData guard not modelled: {ast.unparse(guard)[:80]}")
-    need = {"POST", "PUT", "PATCH"}
-    ctx.check(methods == "all" or need <= methods, "R41.2", (SH, "SaveHar.flow_entry", pd), f"postData exported for methods {sorted(methods) if methods != 'all' else 'all'}",
-              f"request bodies of {sorted(need - methods) if methods != 'all' else []} requests are not exported", desc=f"postData for {sorted(methods) if methods != 'all' else 'all methods'}")
-    pkeys = _keys(pd.value)
-    tv = pkeys.get("text")
-    tv_ok = tv is not None and ((isinstance(tv, ast.Call) and attr_chain(tv.func) == f"{flow}.request.get_text") or attr_chain(tv) in (f"{flow}.request.text",))
-    ctx.check(tv_ok, "R41.2", (SH, "SaveHar.flow_entry", pd), f"postData.text = {ast.unparse(tv) if tv is not None else '<missing>'}",
-              "the exported postData does not carry the request text under 'text', which is what the importer reads", desc="postData.text = request text")
-
-    # ---- R41.2 importer takes postData.text and passes it to Request.make
-    def q(s):
-        return s.replace('"', "'")
-
-    mk = [c for c in ast.walk(rtf) if isinstance(c, ast.Call) and ast.unparse(c.func).endswith("Request.make")]
-    ctx.require(len(mk) == 1 and len(mk[0].args) >= 3, "request_to_flow: Request.make(method, url, content, headers) call not found")
-    if isinstance(mk[0].args[2], ast.Constant):
-        ctx.fail("R41.2", (HAR, "request_to_flow", mk[0]), f"Request.make body argument is the constant {ast.unparse(mk[0].args[2])}", "the imported request never carries the exported postData.text")
-        cvar = "<constant>"
-    else:
-        ctx.require(isinstance(mk[0].args[2], ast.Name), f"request_to_flow: Request.make body argument is not a local: {ast.unparse(mk[0].args[2])}")
-        cvar = mk[0].args[2].id
-    trs, eng = paths(rtf, keep=lambda e: (e[0] == "assign" and e[1] == cvar) or (e[0] == "call" and e[1].endswith("Request.make")), record_conds=True)
-    trs = [(tuple(e for e in t if e[0] != "cond" or "postData" in e[1]), how) for t, how in trs]
-    trs = sorted(set(trs), key=str)
-    ctx.paths += len(trs)
-    bad = False
-    n_with = 0
-    for t, how in trs:
-        mki = [i for i, e in enumerate(t) if e[0] == "call"]
-        if not mki:
-            continue
-        present = [e[2] for e in t if e[0] == "cond" and q(e[1]) == f"'postData' in {rj}['request']"]
-        last = [e for e in t[: mki[0]] if e[0] == "assign"]
-        if present and present[-1]:
-            n_with += 1
-            if not last or q(last[-1][2]) != f"{rj}['request']['postData']['text']" or t[mki[0]][2][2] != cvar:
-                bad = True
-                ctx.fail("R41.2", (HAR, "request_to_flow", mk[0]), f"request_to_flow: path [{show(t)}]", "an exported postData.text is not used as the imported request body")
-    ctx.require(bad or n_with >= 1, f"request_to_flow: no path tests 'postData' in {rj}['request'] (shape not modelled)")
-    if not bad:
-        ctx.ok("R41.2", f"importer: postData.text -> Request.make body on {n_with} path class(es)")
-
-    # ---- R41.2 required keys are exported
-    required = set()
-    for n in ast.walk(rtf):
-        if isinstance(n, ast.Subscript) and isinstance(n.ctx, ast.Load) and not isinstance(getattr(n, "_parent", None), ast.Subscript):
-            chain, e = [], n
-            while isinstance(e, ast.Subscript) and isinstance(e.slice, ast.Constant) and isinstance(e.slice.value, str):
-                chain.append(e.slice.value)
-                e = e.value
-            if isinstance(e, ast.Name) and e.id == rj and chain:
-                required.add(tuple(reversed(chain)))
-    ctx.require(len(required) >= 8, f"request_to_flow: only {len(required)} required key paths found")
-    missing = []
-    for ch in sorted(required):
-        if ch[:2] == ("request", "postData"):
-            continue  # guarded by the presence test checked above
-        ctx.cells += 1
-        level = [entry]
-        okp = True
-        for i, k in enumerate(ch):
-            if not all(k in lv for lv in level):
-                okp = False
-                break
-            vals = [lv[k] for lv in level]
-            nxt = []
-            for v in vals:
-                if isinstance(v, ast.Dict):
-                    nxt.append(_keys(v))
-                elif isinstance(v, ast.Name) and v.id == "response":
-                    nxt += [_keys(d) for d in ex["response"]]
-                else:
-                    nxt = None
-                    break
-            if nxt is None:
-                ctx.require(i == len(ch) - 1, f"importer reads {ch} but the exporter's value at {ch[:i + 1]} is not a dict literal (not modelled)")
-                break
-            level = nxt
-        if not okp:
-            missing.append(ch)
-    ctx.check(not missing, "R41.2", (HAR, "request_to_flow", rtf), f"required keys not exported: {missing}",
-              "the importer subscripts a key that SaveHar does not write in every branch: importing an exported file fails with KeyError",
-              desc=f"{len(required)} required key paths are all exported")
+    # ---- R41.2: bodies, request line, status, importability of every exported variant
+    variants = [
+        dict(method="POST", tag="post"), dict(method="PUT", tag="put"), dict(method="PATCH", tag="patch"),
+        dict(method="GET", url="http://example.com/path?q=1", tag="get-http"), dict(method="DELETE", tag="delete"),
+        dict(method="GET", response="binary", tag="binary"), dict(method="POST", response="empty", tag="empty"),
+        dict(method="GET", response=None, error=True, tag="no-response"), dict(method="GET", response=None, tag="no-response-no-error"),
+        dict(method="GET", websocket=True, tag="websocket"),
+    ]
+    body_bad, line_bad, crash = [], [], []
+    n_body = 0
+    for kw in variants:
+        entry, got, made, it, flow = _roundtrip(ctx, fe, rtf, kw)
+        ctx.paths += 1
+        if isinstance(got, tuple) and got and got[0] == "raise":
+            if got[1] in ("KeyError", "IndexError", "TypeError", "AttributeError"):
+                crash.append(f"{kw['tag']}: {got[1]}")
+                continue
+            raise AnalysisError(f"request_to_flow: the interpretation on the exported entry of {kw} ends with {got[1]} ({got[2]}): not modelled")
+        new = imported(got, kw, kw["tag"])
+        reqs = [m for m in made if m[0] == "request" and m[1] is new.__dict__.get("request")]
+        ctx.require(len(reqs) == 1, f"request_to_flow: the imported request of {kw['tag']} does not come from Request.make (import shape not modelled)")
+        args = reqs[0][2]
+        if kw["method"] in ("POST", "PUT", "PATCH"):
+            n_body += 1
+            c = args["content"]
+            c = c.decode("utf-8", "surrogateescape") if isinstance(c, bytes) else c
+            if c != BODY_TEXT:
+                body_bad.append(f"{kw['method']}: body {BODY_TEXT!r} is imported as {c!r}")
+        if args["method"] != kw["method"] or args["url"] != kw.get("url", "https://example.com/path?q=1"):
+            line_bad.append(f"{kw['tag']}: {kw['method']} {kw.get('url', 'https://example.com/path?q=1')} is imported as {args['method']} {args['url']}")
+        if kw.get("response", "text") is not None:
+            resps = [m for m in made if m[0] == "response" and m[1] is new.__dict__.get("response")]
+            ctx.require(len(resps) == 1, f"request_to_flow: the imported response of {kw['tag']} does not come from http.Response (import shape not modelled)")
+            want = 404 if kw.get("response") == "empty" else 200
+            if resps[0][2]["status_code"] != want:
+                line_bad.append(f"{kw['tag']}: status {want} is imported as {resps[0][2]['status_code']}")
+    ctx.check(not body_bad, "R41.2", (HAR, "request_to_flow", rtf), "request body of POST/PUT/PATCH requests does not survive export+import",
+              "; ".join(body_bad), desc=f"request text of {n_body} POST/PUT/PATCH flows is handed to Request.make as the body")
+    ctx.check(not line_bad, "R41.2", (HAR, "request_to_flow", rtf), "method / URL / status code do not survive export+import",
+              "; ".join(line_bad), desc=f"method, URL and status code of {len(variants)} exported variants survive")
+    ctx.check(not crash, "R41.2", (HAR, "request_to_flow", rtf), "importing an exported entry fails on a key the exporter does not write",
+              "the importer requires a key / shape that SaveHar does not write in every branch: " + "; ".join(crash),
+              desc=f"{len(variants)} exported variants (text / binary / empty body, no response, error, websocket) import without KeyError")
+    ctx.bounds.append(f"R41.1-3: {len(lits)} version literals x request/response; R41.2: {len(variants)} flow variants")
+    ctx.trust("json, datetime, base64, re, urllib.parse (handed to the interpreter as trusted modules); mitmproxy.http / connection / net.encoding on the import side replaced by recording stand-ins")
 
     expect(ctx, "R41.1", 6)
-    expect(ctx, "R41.2", 4)
+    expect(ctx, "R41.2", 3)
     expect(ctx, H2_RULE, 2)
 
 
@@ -271,26 +499,64 @@ def _r41_123(ctx):
 IO = "mitmproxy/io/io.py"
 
 
-def _stub_entry(ctx, fe, rank: int, tag: str) -> dict:
-    """an entry shaped like flow_entry's dict literals, every leaf ordered by ``rank`` (so that a sort on ANY exported key is visible)"""
-    ex = _exporter(ctx, fe)
+def _sample_entry(ctx, fe):
+    """one interpreted export of a standard flow: the shape of what flow_entry writes"""
+    import json
 
-    def shape(d: ast.Dict, depth=0):
+    from ..pyint import Raised
+    from ..pyint import Rec
+
+    it, message = _make_interp(ctx, [])
+    flow = _export_flow(message, method="POST", tag="shape")
+    me = Rec("SaveHar", _impl=(SH, "SaveHar"), flows=[], filt=None)
+    try:
+        entry = it.method(me, "flow_entry", flow, *([set()] if len(params(fe)) >= 2 else []))
+    except Raised as r:
+        raise AnalysisError(f"SaveHar.flow_entry: the interpretation on an abstract flow ends with {r.name} ({r.msg}): not modelled")
+    ctx.require(isinstance(entry, dict), "SaveHar.flow_entry does not return a dict")
+    return json.loads(json.dumps(entry, default=str))
+
+
+def _stub_entry(shape_of: dict, rank: int, tag: str) -> dict:
+    """an entry shaped like what flow_entry writes, every leaf ordered by ``rank`` (so that a sort on ANY exported key is visible)"""
+
+    def shape(d: dict, depth=0):
         out = {}
-        for k, v in _keys(d).items():
-            if isinstance(v, ast.Dict) and depth < 3:
+        for k, v in d.items():
+            if isinstance(v, dict) and depth < 3:
                 out[k] = shape(v, depth + 1)
-            elif isinstance(v, ast.Name) and v.id == "response" and ex["response"]:
-                out[k] = shape(ex["response"][0], depth + 1)
             elif k.endswith("DateTime"):
                 out[k] = f"2001-01-{rank + 1:02d}T00:00:00+00:00"
+            elif isinstance(v, list):
+                out[k] = [float(rank)] * (rank + 1)
             else:
                 out[k] = float(rank)
         return out
 
-    e = shape(ex["entry"][0])
-    ctx.require("startedDateTime" in e and len(e) >= 4, f"SaveHar.flow_entry: entry literal has keys {sorted(e)} (startedDateTime expected)")
+    e = shape(shape_of)
     e["_tag"] = tag
+    return e
+
+
+def _first_arg(call: ast.Call, pname: str):
+    if call.args:
+        return call.args[0]
+    for k in call.keywords:
+        if k.arg == pname:
+            return k.value
+    return None
+
+
+def _resolve_alias(fn, e):
+    """value of a local that is assigned exactly once in ``fn`` from a plain name / attribute chain"""
+    seen = 0
+    while isinstance(e, ast.Name) and seen < 4:
+        asg = [n for n in ast.walk(fn) if isinstance(n, (ast.Assign, ast.AnnAssign)) and n.value is not None
+               and any(isinstance(t, ast.Name) and t.id == e.id for t in (n.targets if isinstance(n, ast.Assign) else [n.target]))]
+        if len(asg) != 1 or not attr_chain(asg[0].value):
+            break
+        e = asg[0].value
+        seen += 1
     return e
 
 
@@ -302,6 +568,7 @@ def r41_4(ctx):
 
     from ..pyint import Func
     from ..pyint import Interp
+    from ..pyint import NullLog
     from ..pyint import Raised
     from ..pyint import Rec
 
@@ -317,25 +584,15 @@ def r41_4(ctx):
 
             return super().native_call(f, [wrap(a) for a in args], {k: wrap(v) for k, v in kwargs.items()}, where)
 
-        def name(self, ident, env, mod, depth, node):
-            if ident in ("map", "filter") and ident not in env and mod.get(ident) is None and ident not in mod.imports and not mod.assigns(ident):
-                return ("$builtin", ident)
-            return super().name(ident, env, mod, depth, node)
-
-        def builtin(self, name, args, kwargs, e, env, mod, depth):
-            if name == "map" and len(args) >= 2:
-                return iter([self.apply(args[0], list(xs), {}, depth, e) for xs in zip(*[list(self.iterate(a, e)) for a in args[1:]])])
-            if name == "filter" and len(args) == 2:
-                return iter([x for x in list(self.iterate(args[1], e)) if self.truthy(x if args[0] is None else self.apply(args[0], [x], {}, depth, e))])
-            return super().builtin(name, args, kwargs, e, env, mod, depth)
-
     m = ctx.model
     fe = ctx.func(SH, "SaveHar.flow_entry")
     mh = ctx.func(SH, "SaveHar.make_har")
     mp = params(mh)
-    ctx.require(len(mp) == 1, "SaveHar.make_har(flows) signature changed")
-    trusted = {"json": json, "datetime": datetime, "logging": types.SimpleNamespace(getLogger=lambda *a: None, log=lambda *a, **k: None)}
-    quiet = types.SimpleNamespace(**{n: (lambda *a, **k: None) for n in ("debug", "info", "warning", "warn", "error", "log")})
+    n_required = len(mh.args.posonlyargs + mh.args.args) - 1 - len(mh.args.defaults)
+    ctx.require(len(mp) >= 1 and n_required == 1 and not any(d is None for d in mh.args.kw_defaults), "SaveHar.make_har(flows) signature changed: more than the flow list is required")
+    shape_of = _sample_entry(ctx, fe)
+    ctx.require("startedDateTime" in shape_of and len(shape_of) >= 4, f"SaveHar.flow_entry: the exported entry has keys {sorted(shape_of)} (startedDateTime expected)")
+    trusted = {"json": json, "datetime": datetime, "logging": NullLog()}
 
     # ---- exporter: entries follow the flows
     orders = [(0, 1, 2), (2, 1, 0), (1, 2, 0)] if ctx.tier != "thorough" else list(itertools.permutations(range(4)))
@@ -344,7 +601,6 @@ def r41_4(ctx):
     for ranks in orders:
         for skip_at in (None, 1):
             it = StubInterp(m, trusted_modules=trusted)
-            it.overrides[(SH, "logger")] = quiet
             flows, made = [], {}
             for i, r in enumerate(ranks):
                 if skip_at == i:
@@ -352,7 +608,7 @@ def r41_4(ctx):
                 flows.append(Rec("HTTPFlow", _bases=("Flow",), _name=f"http{i}", rank=r))
 
             def flow_entry(flow, *a, _made=made, **k):
-                _made[flow._name] = _stub_entry(ctx, fe, flow.rank, flow._name)
+                _made[flow._name] = _stub_entry(shape_of, flow.rank, flow._name)
                 return _made[flow._name]
 
             flow_entry._stub = True
@@ -381,7 +637,13 @@ def r41_4(ctx):
         want = want_arg or (params(fn)[0] if params(fn) else None)
         calls = [c for c in ast.walk(fn) if isinstance(c, ast.Call) and attr_chain(c.func) in ("self.make_har", "self.export_har")]
         ctx.require(calls, f"{qual}: no call of self.make_har / self.export_har (export path not modelled)")
-        okc = all(c.args and attr_chain(c.args[0]) == want and not isinstance(c._parent, ast.Subscript) for c in calls)
+        firsts = []
+        for c in calls:
+            callee = m.method(SH, "SaveHar", attr_chain(c.func).split(".")[1])
+            pname = params(callee[1])[0] if callee is not None and params(callee[1]) else "flows"
+            a = _first_arg(c, pname)
+            firsts.append(attr_chain(_resolve_alias(fn, a)) if a is not None else None)
+        okc = all(a == want for a in firsts) and not any(isinstance(c._parent, ast.Subscript) for c in calls)
         ctx.check(okc, "R41.4", (SH, qual, calls[0]), f"{qual}: {', '.join(ast.unparse(c) for c in calls)}"[:200],
                   f"the HAR is not built from {want} as given", desc=f"{qual} serialises make_har({want})")
 
@@ -390,7 +652,7 @@ def r41_4(ctx):
     n_imp = 0
     bad = None
     for ranks in orders:
-        entries = [_stub_entry(ctx, fe, r, f"entry{i}") for i, r in enumerate(ranks)]
+        entries = [_stub_entry(shape_of, r, f"entry{i}") for i, r in enumerate(ranks)]
         data = json.dumps({"log": {"version": "1.2", "creator": {"name": "x", "version": "1", "comment": ""}, "pages": [], "entries": entries}}).encode()
 
         class FakeFile:  # position-less: the generator is replayed by pyint, reads must be idempotent
@@ -429,14 +691,14 @@ def r41_4(ctx):
                  "the imported flows are not the file's entries in file order")
     else:
         ctx.ok("R41.4", f"FlowReader.stream: one request_to_flow(entry) per log.entries element, in file order, on {n_imp} tagged files")
-    ctx.bounds.append(f"R41.4: {len(orders)} rank orders of {len(orders[0])} HTTP flows (with / without an interleaved non-HTTP flow); every key of flow_entry's literals ordered by the rank")
+    ctx.bounds.append(f"R41.4: {len(orders)} rank orders of {len(orders[0])} HTTP flows (with / without an interleaved non-HTTP flow); every key of an interpreted flow_entry result ordered by the rank")
     ctx.trust("json, datetime (R41.4: handed to the interpreter as trusted modules)")
     expect(ctx, "R41.4", 4)
 
 
 def check(ctx):
     ctx.rule("R41.1", "each canonical HTTP version literal other than HTTP/2.0 exported by SaveHar is imported as itself (request and response)")
-    ctx.rule("R41.2", "postData exported for POST/PUT/PATCH and imported as the request body; all keys the importer requires are exported")
+    ctx.rule("R41.2", "the request text of POST/PUT/PATCH requests is imported as the request body; method, URL, status survive; every exported variant imports without a missing key")
     ctx.rule("R41.3", "the canonical HTTP/2 literal exported by SaveHar is imported as itself (known defect F-C41 on today's tree)")
     ctx.rule("R41.4", "make_har lists the entries of the HTTP flows in the order given, FlowReader.stream yields one flow per entry in file order (interpreted over position-tagged entries)")
     # each group is guarded: a shape one rule does not model must not hide a violation found by another
@@ -449,12 +711,15 @@ MUTANTS = [
     Mutant("revert-fix-response-http10", HAR, "        case \"HTTP/1.0\":\n            new_flow.response.http_version = \"HTTP/1.0\"\n", "", "R41.1"),
     Mutant("http3-imported-as-http2", HAR, "        case \"HTTP/3\":\n            new_flow.request.http_version = \"HTTP/3\"\n", "        case \"HTTP/3\":\n            new_flow.request.http_version = \"HTTP/2\"\n", "R41.1"),
     Mutant("default-becomes-http10", HAR, "        case _:\n            new_flow.response.http_version = \"HTTP/1.1\"\n", "        case _:\n            new_flow.response.http_version = \"HTTP/1.0\"\n", "R41.1"),
+    Mutant("response-version-taken-from-request", HAR, "    match http_version_resp:\n", "    match http_version_req:\n", "R41.1"),
     Mutant("canonical-http3-literal-changes", HTTP, "        return self.data.http_version == b\"HTTP/3\"\n", "        return self.data.http_version == b\"HTTP/3.0\"\n", "R41.1"),
+    Mutant("exporter-drops-minor-version", SH, "                \"httpVersion\": flow.request.http_version,\n", "                \"httpVersion\": flow.request.http_version.split(\".\")[0],\n", "R41.1"),
     Mutant("http2-imported-as-http3", HAR, "        case \"HTTP/3\":\n            new_flow.response.http_version = \"HTTP/3\"\n", "        case \"HTTP/3\" | \"HTTP/2.0\":\n            new_flow.response.http_version = \"HTTP/3\"\n", "R41.3"),
     Mutant("patch-bodies-not-exported", SH, "if flow.request.method in [\"POST\", \"PUT\", \"PATCH\"]:", "if flow.request.method in [\"POST\", \"PUT\"]:", "R41.2"),
     Mutant("postdata-text-missing", SH, "                \"text\": flow.request.get_text(strict=False),\n", "", "R41.2"),
     Mutant("importer-reads-wrong-postdata-key", HAR, "request_content = request_json[\"request\"][\"postData\"][\"text\"]", "request_content = request_json[\"request\"][\"postData\"][\"mimeType\"]", "R41.2"),
     Mutant("importer-drops-body", HAR, "        request_method, request_url, request_content, request_headers\n", "        request_method, request_url, \"\", request_headers\n", "R41.2"),
+    Mutant("importer-swaps-method-and-url", HAR, "        request_method, request_url, request_content, request_headers\n", "        request_url, request_method, request_content, request_headers\n", "R41.2"),
     Mutant("entries-sorted-by-start-time", SH, "        if skipped > 0:\n            logger.info(", "        entries.sort(key=lambda entry: entry[\"startedDateTime\"])\n        if skipped > 0:\n            logger.info(", "R41.4"),
     Mutant("entries-newest-first", SH, "                \"entries\": entries,\n", "                \"entries\": entries[::-1],\n", "R41.4"),
     Mutant("entries-sorted-by-duration", SH, "                \"entries\": entries,\n", "                \"entries\": sorted(entries, key=lambda e: e[\"time\"], reverse=True),\n", "R41.4"),
@@ -464,4 +729,5 @@ MUTANTS = [
     Mutant("importer-skips-first-entry", IO, "                for request_json in har_file[\"log\"][\"entries\"]:\n", "                for request_json in har_file[\"log\"][\"entries\"][1:]:\n", "R41.4"),
     Mutant("hardump-exports-filtered-copy-reversed", SH, "                har = self.make_har(self.flows)\n", "                har = self.make_har(self.flows[::-1])\n", "R41.4"),
     Mutant("exporter-renames-required-key", SH, "                \"status\": flow.response.status_code,\n", "                \"statusCode\": flow.response.status_code,\n", "R41.2"),
+    Mutant("no-response-entry-lacks-content", SH, "                \"content\": {},\n                \"redirectURL\": \"\",\n", "                \"redirectURL\": \"\",\n", "R41.2"),
 ]
